@@ -3,10 +3,12 @@ CONSTANTS
   MaxGroups = 0
   MaxObjects = 1
   MaxData = 2
+  MaxDrill = 0
   MaxPGs = 1
   ObjClasses = {"Curve"}
   Prims = {"float", "floatcmap", "ref", "text"}
   ShareTypes = TRUE
+  UnnamedPGs = FALSE
   Deviations = {}
 INVARIANT TypeOK
 INVARIANT EveryItemClassified
